@@ -108,12 +108,14 @@ def group_sections(g, sockdir, changed=False, new=False):
     events = list(g.get('events') or ['TICK_5'])
     if new and g.get('reorder'):
         events.reverse()          # same subscriptions, other order on the events= line
+    if new and g.get('events_new'):
+        events = list(g['events_new'])      # the edit is the subscription list itself
     # how a "changed" group differs: a process option by default, or the group's own kind of option
     how = g.get('change_opt') or 'umask'
     CH = {'umask': ('umask', '027'), 'priority': ('priority', '5'), 'socket_mode': ('socket_mode', '0770'),
           'socket_backlog': ('socket_backlog', '7'), 'buffer_size': ('buffer_size', '33'),
           'environment': ('environment', 'CH="1"'), 'stdout_logfile': ('stdout_logfile', 'NONE')}
-    extra = [CH[how]] if changed and how != 'events' else []
+    extra = [CH[how]] if changed and how not in ('events', 'none') else []
     if changed and how == 'events':
         events = events + ['PROCESS_STATE']
     if k == 'program':
